@@ -30,3 +30,67 @@ def orders_for(nc, tier):
     if tier == 'quick' and len(ks) > 4:
         ks = sorted(set([0, 1, nc - 1, nc])) if nc <= 8 else [0, nc - 1, nc]
     return ks
+
+
+# ---------------------------------------------------------------------------------------------- native replay
+import subprocess, json, re
+import discharge
+import cxxast
+
+ROOT = os.path.dirname(os.path.dirname(os.path.abspath(__file__)))
+
+
+def build_native(name, workdir, extra_flags=()):
+    """compile /verif/native/<name>.cpp against /repo's CURRENT headers"""
+    src = os.path.join(ROOT, 'native', name + '.cpp')
+    exe = os.path.join(workdir, name)
+    if os.path.exists(exe):
+        return exe, ''
+    os.makedirs(workdir, exist_ok=True)
+    cmd = ['g++', '-std=c++17', '-O1', '-I/usr/include/eigen3', '-I', os.path.join(cxxast.REPO, 'include')] + list(extra_flags) + [src, '-o', exe]
+    p = subprocess.run(cmd, stdout=subprocess.PIPE, stderr=subprocess.STDOUT)
+    if p.returncode != 0:
+        return None, p.stdout.decode(errors='replace')[-1500:]
+    return exe, ''
+
+
+def model_int(model, name, default=0):
+    v = model.get(name)
+    if v is None:
+        return default
+    try:
+        return int(v)
+    except ValueError:
+        return default
+
+
+def replay_native(name, args, workdir, timeout=600, extra_flags=()):
+    exe, err = build_native(name, os.path.join(workdir, 'native'), extra_flags)
+    if exe is None:
+        return False, 'native replay program does not compile against the current header: ' + err
+    try:
+        p = subprocess.run([exe] + [str(a) for a in args], stdout=subprocess.PIPE, stderr=subprocess.STDOUT, timeout=timeout)
+    except subprocess.TimeoutExpired:
+        return False, 'native replay timed out'
+    out = p.stdout.decode(errors='replace')
+    found = p.returncode != 0
+    return found, ('exit=%d (a crash or failed run-time assertion counts as a failing input)\n' % p.returncode if found else '') + out[-3000:]
+
+
+def ppoly_replay(prop, result, workdir, seed):
+    model = discharge.parse_trace(result.trace or '')
+    pins = getattr(result.harness.task, 'pins', {}) if getattr(result, 'harness', None) is not None and hasattr(result.harness, 'task') else {}
+    nseg = model_int(model, 'num_segments_', 0)
+    nc = pins.get('num_coeffs_', model_int(model, 'num_coeffs_', 0))
+    hint = model_int(model, 'p_last_idx_hint_val', 0)
+    k = pins.get('p_derivative_order', model_int(model, 'p_derivative_order', 0))
+    return replay_native('replay_ppoly', [prop, seed, nseg, nc, hint, k], workdir)
+
+
+def generic_replay_file(path):
+    rec = json.load(open(path))
+    print('obligation :', rec.get('obligation'))
+    print('label      :', rec.get('label'))
+    print('native     :', json.dumps(rec.get('native_replay'), indent=1)[:3000])
+    print('model      :', json.dumps(rec.get('model'))[:2000])
+    return 1 if rec.get('native_replay', {}).get('failing_input_found') else 3
